@@ -428,5 +428,8 @@ func init() {
 		fs.Tri("handlerSyncsAfterWrite", t, w)
 		t, w = c02ChronSyncForwards(s)
 		fs.Tri("chronSyncForwards", t, w)
+		t, w = c25FlushesAtCountBound(s)
+		fs.Tri("flushesAtCountBound", t, w)
+		c25ReaderAssumptions(fs, s)
 	}})
 }
